@@ -579,6 +579,7 @@ pub fn run(ctx: Ctx) -> ! {
     let quick = ctx.quick();
     // (full-sweep depth, strided depth, stride, edge, wall cap)
     let (full_depth, max_depth, stride, edge, cap_s): (usize, usize, u64, u64, f64) = if quick { (0, 1, 17, 50, 52.0) } else { (1, 2, 53, 20, 1080.0) };
+    let cap_s = wall_cap_override().unwrap_or(cap_s);
 
     // ---- states
     let root_sim = sim_from(&root.snap);
@@ -740,6 +741,8 @@ pub fn run(ctx: Ctx) -> ! {
     let mut cov = Map::new();
     let ns: Vec<u64> = subjects.iter().map(|s| s.n).collect();
     let root_points: BTreeMap<String, u64> = subjects.iter().filter(|s| s.state == 0).map(|s| (s.op.name(), s.n)).collect();
+    let root_outcomes: BTreeMap<String, String> = subjects.iter().filter(|s| s.state == 0).map(|s| (s.op.name(), s.base_class.clone())).collect();
+    cov.insert("unfaulted_outcome_per_transaction_root_state".into(), json!(root_outcomes));
     cov.insert("states_per_depth".into(), json!(per_depth));
     cov.insert("subjects".into(), json!(subjects.len()));
     cov.insert("fault_points_per_transaction_root_state".into(), json!(root_points));
